@@ -354,6 +354,59 @@ func Preds(seed uint64, n int) *Out {
 		add("int.oneof", fmt.Sprintf("(BIntOneOf [%s; %s; %s])", eng.CoqZ(l[0]), eng.CoqZ(l[1]), eng.CoqZ(l[2])), false, "(DInt "+eng.CoqZ(v)+")",
 			passNum(func() *z.NumberSchema[int64] { return z.Int64() }, func(s *z.NumberSchema[int64]) { s.OneOf(l) }, v))
 	}
+	// enumerations of every small shape: repeated members, runs with a gap, a single member, unsorted lists
+	// (membership is membership: neither the order nor a repetition nor the span of the list matters);
+	// on every integer width
+	{
+		fr := r.Fork(0x0e0f)
+		lists := [][]int64{{1, 1, 3}, {7, 5, 5}, {0, 0, 1, 3}, {200, 200, 202}, {3}, {2, 1}, {-1, -1, 1}, {5, 3, 3, 1}, {1, 2, 3}, {4, 2}, {1, 1}}
+		for i := 0; i < 40; i++ {
+			k := 1 + fr.Intn(5)
+			base := int64(fr.Intn(9)) - 4
+			l := make([]int64, k)
+			for j := range l {
+				l[j] = base + int64(fr.Intn(k+1))
+			}
+			lists = append(lists, l)
+		}
+		for li, l := range lists {
+			l := l
+			lo, hi := l[0], l[0]
+			for _, x := range l {
+				if x < lo {
+					lo = x
+				}
+				if x > hi {
+					hi = x
+				}
+			}
+			xs := make([]string, len(l))
+			for j, x := range l {
+				xs[j] = eng.CoqZ(x)
+			}
+			bt := "(BIntOneOf [" + strings.Join(xs, "; ") + "])"
+			for v := lo - 1; v <= hi+1; v++ {
+				v := v
+				sub := "(DInt " + eng.CoqZ(v) + ")"
+				switch li % 3 {
+				case 0:
+					add("int.oneof", bt, false, sub, passNum(func() *z.NumberSchema[int64] { return z.Int64() }, func(s *z.NumberSchema[int64]) { s.OneOf(l) }, v))
+				case 1:
+					li32 := make([]int32, len(l))
+					for j, x := range l {
+						li32[j] = int32(x)
+					}
+					add("int32.oneof", bt, false, sub, passNum(func() *z.NumberSchema[int32] { return z.Int32() }, func(s *z.NumberSchema[int32]) { s.OneOf(li32) }, int32(v)))
+				default:
+					lint := make([]int, len(l))
+					for j, x := range l {
+						lint[j] = int(x)
+					}
+					add("intn.oneof", bt, false, sub, passNum(func() *z.NumberSchema[int] { return z.Int() }, func(s *z.NumberSchema[int]) { s.OneOf(lint) }, int(v)))
+				}
+			}
+		}
+	}
 	fl := []float64{0, math.Copysign(0, -1), 1, -1, 2.5, math.Nextafter(2.5, 3), math.Nextafter(2.5, 2), math.Inf(1), math.Inf(-1), math.NaN(), math.MaxFloat64, math.SmallestNonzeroFloat64, 1e300, -1e300, 16777216, 16777217}
 	for _, nb := range fl {
 		if math.IsNaN(nb) {
